@@ -267,6 +267,31 @@ def run_one(res, db, tag):
     ext = sorted(n for n in R if n not in db.fn)
     res.analysed[tag + 'external callees of the reachable set'] = ext
 
+    # ---- C19.e a private copy of the configuration shares no hook object with the original
+    res.rule('C19.e', 'htp_config_copy deep-copies every hook of htp_cfg_t: for each hook field F, copy->F = htp_hook_copy(cfg->F) under the test cfg->F != NULL (same field three times)')
+    cp = db.get('htp_config_copy')
+    rec = db.records.get('htp_cfg_t')
+    hooks = [x['name'] for x in rec['fields'] if 'htp_hook_t' in x['t']]
+    res.floor('C19.e', tag + 'hook fields of htp_cfg_t', len(hooks), 20)
+    copied = {}
+    for b, i, st in cp.stmts():
+        for a in nodes(st, lambda y: y.get('k') == 'assign' and y['op'] == '=' and strip(y['l']).get('k') == 'member' and strip(y['l']).get('rec') == 'htp_cfg_t'):
+            l = strip(a['l'])
+            r = strip(a['r'])
+            if l['field'] in hooks:
+                src = strip(r['args'][0]) if r.get('k') == 'call' and r.get('callee') == 'htp_hook_copy' and r['args'] else None
+                guard = [f_ for f_, e in __import__('sa.pat', fromlist=['x']).facts_at(cp, b) if f_[1] == '!=' and f_[2] == '0' and '->hook_' in f_[0]]
+                copied[l['field']] = (src.get('field') if src is not None and src.get('k') == 'member' else None, [g[0].split('->')[-1] for g in guard], a)
+    for h in hooks:
+        key = tag + 'htp_config_copy:' + h
+        if h not in copied:
+            res.violated('C19.e', key, 'hook %s is not deep-copied by htp_config_copy: a private configuration keeps pointing at the shared hook list (registering on the copy mutates the shared configuration; destroying it frees the shared hook)' % h, cp.loc)
+            continue
+        src, guards, a = copied[h]
+        ok = src == h and h in guards
+        res.check(ok, 'C19.e', key, 'copy->%s = htp_hook_copy(cfg->%s) under cfg->%s != NULL' % (h, h, h),
+                  'the copy of %s is taken from %s under the guard(s) %s: when the guard does not match, the private configuration keeps the shared hook pointer' % (h, src, guards), a['loc'])
+
     # ---- C19.d hook runners
     for hn in ('htp_hook_run_all', 'htp_hook_run_one'):
         f = db.get(hn)
